@@ -94,7 +94,7 @@ def step (fl : Flags) (m : Mem) (now : Time) : Op → Mem × Out
           | none => { t with state := .done, doneAt := some (normalize now) }
           | some msg => { t with state := .err, err := msg, doneAt := some (normalize now) }) }, .ok)
   | .find q offset limit =>
-    (m, .tasks (findLoop (q.normalize fl.normDeadline).matches m.tasks offset limit))
+    (m, .tasks (findLoop (q.normalize fl.normDeadline).matches (byCreated m.tasks) offset limit))
   | .next =>
     match m.heap.arr[0]? with
     | none => (m, .err .exhausted)
